@@ -1,7 +1,7 @@
 (* Extract/Driver.v — dispatch : sexp -> sexp, the single entry point of the extracted model *)
 From Coq Require Import List Bool Ascii String ZArith.
 From FM Require Import Base.Result Base.Str Base.Sexp Base.AstOp Model.Ast Model.FM Model.Ctc
-     Model.Queries Model.Sem Model.Ops Model.EqHash Model.PFM Format.Json Format.Glencoe Format.Xml Extract.Codec.
+     Model.Queries Model.Sem Model.Ops Model.EqHash Model.PFM Format.Json Format.Glencoe Format.Xml Model.Metrics Extract.Codec.
 Import ListNotations.
 Open Scope string_scope.
 
@@ -133,6 +133,18 @@ Definition op_eqq (a b : fm) : sexp :=
                  (fm_relations a) (fm_relations b)];
      e_tag "ctcs_eq" [e_matrix (ctc_eqb str_lower) (ctcs a) (ctcs b)]].
 
+(* suite O-metrics *)
+Definition e_mval (v : mval) : sexp :=
+  match v with
+  | MNames l => e_tag "names" [SList (map SStr l)]
+  | MStr s => e_tag "str" [SStr s]
+  | MInt z => e_tag "int" [e_z z]
+  | MHund h => e_tag "hund" [e_z h]
+  end.
+Definition e_entry (e : entry) : sexp :=
+  SList [SStr (me_method e); SStr (me_name e); e_mval (me_result e); e_opt e_z (me_size e);
+         e_opt e_z (me_ratio e); e_opt SStr (me_parent e); e_z (me_level e)].
+
 Definition bad (msg : string) : sexp := e_tag "bad-request" [SStr msg].
 
 Definition dispatch (req : sexp) : sexp :=
@@ -199,6 +211,23 @@ Definition dispatch (req : sexp) : sexp :=
       else if String.eqb op "fama_read" then
         match args with
         | [v] => match d_xml v with Some v' => e_result e_pfm (fama_read v') | None => bad "xml" end
+        | _ => bad "arity"
+        end
+      else if String.eqb op "metrics" then
+        match args with
+        | [flt; m] =>
+            match d_fm m with
+            | Some m' =>
+                let f := match flt with
+                         | SList l => option_map Some (omap d_str l)
+                         | _ => Some None
+                         end in
+                match f with
+                | Some f' => e_result (e_list e_entry) (report m' f')
+                | None => bad "filter"
+                end
+            | None => bad "fm"
+            end
         | _ => bad "arity"
         end
       else if String.eqb op "echo_fm" then
